@@ -509,6 +509,13 @@ pub async fn build_primary_with(bulk: usize) -> Option<Primary> {
 /// version - a zone with more RRsets than the XFR middleware's zone walk can
 /// hand over in one go (its channel holds 100), all of them still fitting
 /// into a single response message.
+thread_local! {
+    /// The last step of the primary's history also adds this many RRsets of
+    /// about 60 KiB each (one response message apiece): a single difference
+    /// sequence that needs more messages than a server's response queue holds.
+    pub static HUGE_LAST_STEP: std::cell::Cell<usize> = const { std::cell::Cell::new(0) };
+}
+
 pub async fn build_primary_with2(bulk: usize, hosts: usize) -> Option<Primary> {
     let all = universe_names();
     let n_names = 3 + sim::draw("focus.n_names", 6) as usize;
@@ -606,6 +613,14 @@ pub async fn build_primary_with2(bulk: usize, hosts: usize) -> Option<Primary> {
                     added.push(canon);
                 }
             }
+        }
+        let huge = if s + 1 == n_steps { HUGE_LAST_STEP.with(|c| c.get()) } else { 0 };
+        for i in 0..huge {
+            let text: String = (0..235).map(|j| format!("\"{}\"", format!("h{}s{}-", i, j).repeat(50).chars().take(255).collect::<String>())).collect::<Vec<_>>().join(" ");
+            let r = RecSpec { owner: format!("huge{}.{}", i, APEX), rtype: Rtype::TXT, ttl: 300, rdata: text };
+            let canon = RecSpec { rdata: canon_rdata(&r.owner, r.rtype, &r.rdata), ..r };
+            apply_add(&mut new, &canon);
+            added.push(canon);
         }
         new.remove(&(APEX.to_string(), Rtype::SOA));
         apply_add(&mut new, &soa_spec(new_serial));
